@@ -14,7 +14,7 @@ RULE = ('models: regression catalogue + exhaustive enumeration (all models with 
         '(position automaton with unrolled occurrence ranges, and derivative-automaton exploration over marked symbols, '
         'which must agree); a case = (version, model); non-trivial = nested or counted model with >= 2 leaf particles of '
         'which two overlap in symbols, counted on distinct canonical models')
-RULE += (' ' + 'Shard twoheads: XSD 1.1 models over references to two unrelated heads that share a substitution-group member.')
+RULE += (' ' + 'Shard memberrefs: references to direct and indirect members of the head beside the head (both versions). Shard twoheads: XSD 1.1 models over references to two unrelated heads that share a substitution-group member.')
 ASSUMPTIONS = [
     'UPA is read on particles: two unrolled copies of the same particle never clash (counter ambiguity is not a UPA violation)',
     'XSD 1.1: element/wildcard competition is not an error; wildcard/wildcard and element/element competition is',
@@ -92,6 +92,8 @@ def plan(tier, seed):
         specs.append({'kind': 'random', 'n': nrand // rshards, 'rshard': r})
     for part in range(2 if tier == 'quick' else 1):
         specs.append({'kind': 'twoheads', 'part': (seed + part) % 6 if tier == 'quick' else 0, 'parts': 6 if tier == 'quick' else 1})
+    for part in range(2 if tier == 'quick' else 1):
+        specs.append({'kind': 'memberrefs', 'part': (seed + part) % 6 if tier == 'quick' else 0, 'parts': 6 if tier == 'quick' else 1})
     # wildcard pairs / triples over the full constraint vocabulary (lists and notNamespace included)
     wparts = 8
     for part in range(wparts):
@@ -120,7 +122,7 @@ def overlapping(node, cfg):
 def judge(res, node, cfg, origin):
     node = M.to_tuple(node)
     for version in ('1.0', '1.1'):
-        if version == '1.0' and (cfg.get('open') or not K.expressible_10(node)):
+        if version == '1.0' and (cfg.get('open') or cfg.get('two_heads') or not K.expressible_10(node)):
             continue
         ref, why = ref_verdict(node, cfg, version)
         if ref is None:
@@ -324,6 +326,23 @@ def run_shard(spec, res):
                         node = ('s', (('c', tuple(kids[:2]), 0, 1),) + tuple(kids[2:]) + (('e', 'b', 1, 1),), 1, 2)
                     res.count('twoheads:models')
                     judge(res, node, {'two_heads': True}, 'twoheads')
+    elif kind == 'memberrefs':
+        # references to members of the head's substitution group beside the head itself (k and its member j substitute
+        # h; j does so only through k): both versions
+        import itertools
+        occs = ((1, 1), (0, 1), (0, None))
+        leaves = [('h', o[0], o[1]) for o in occs] + [('r', 'k~k,j', o[0], o[1]) for o in occs] + \
+                 [('r', 'j~j', o[0], o[1]) for o in occs] + [('r', 'm~m', o[0], o[1]) for o in occs[:2]] + [('e', 'a', 1, 1)]
+        k = 0
+        for kids in itertools.chain(itertools.product(leaves, repeat=2), itertools.product(leaves, repeat=3)):
+            if not any(c[0] == 'r' for c in kids):
+                continue
+            for g in ('s', 'c'):
+                k += 1
+                if k % spec['parts'] != spec['part']:
+                    continue
+                res.count('memberrefs:models')
+                judge(res, (g, tuple(kids), 1, 1), {'subst': 'plain'}, 'memberrefs')
     elif kind == 'enumw':
         cons = M.WILDCARD_CONS + M.WILDCARD_CONS_MORE
         occs = ((1, 1), (0, 1), (1, None))
